@@ -331,7 +331,9 @@ class Inliner:
         for p, arg in binding.items():
             stored = hfacts.stores.get(p, 0) > 0
             uses = sum(_count_loads(s, p) for s in h.body)
-            if not stored and (_simple(arg) or uses <= 1):
+            if not stored and (_simple(arg) or uses == 0):
+                # a complex argument is bound to a local first: substituting it at its use could move its
+                # evaluation into a `try`, a branch or a loop of the helper (S9 inlines it again where that is safe)
                 subst[p] = arg
             else:
                 new = p
@@ -446,10 +448,20 @@ class Inliner:
                         continue
                     target = awaited if awaited is not None else call
                     if ef is not None:
-                        # every parameter is used at most once, or its argument is simple
-                        if all(_simple(a) or _count_loads(ef, p) <= 1 for p, a in binding.items()) and not any(
-                            isinstance(n, (ast.Name,)) and isinstance(n.ctx, ast.Store) for n in ast.walk(ef)
-                        ):
+                        # an argument is substituted if it is simple, or a constant accessor object
+                        # (operator.attrgetter("x") ...), or used exactly once at a position that is evaluated
+                        # once and first; names bound inside the expression must not capture anything
+                        bound = {n.id for n in ast.walk(ef) if isinstance(n, ast.Name) and isinstance(n.ctx, ast.Store)}
+                        from .canon import _unconditional_loads
+
+                        def substitutable(p: str, a: ast.expr) -> bool:
+                            if any(isinstance(n, ast.Name) and n.id in bound for n in ast.walk(a)):
+                                return False
+                            if _simple(a) or _accessor(a):
+                                return True
+                            return _count_loads(ef, p) == 1 and _unconditional_loads(ef, p) == 1 and not bound
+
+                        if all(substitutable(p, a) for p, a in binding.items()):
                             new = _Rename({}, binding).visit(copy.deepcopy(ef))
                             if _replace_expr(s, target, new):
                                 return True
@@ -482,6 +494,16 @@ class Inliner:
                     blk[i:i + 1] = pre + new_body
                     return True
         return None
+
+
+def _accessor(a: ast.expr) -> bool:
+    """operator.attrgetter("x") / itemgetter(0) / methodcaller("m"): a constant, effect-free callable."""
+    if not (isinstance(a, ast.Call) and not a.keywords and a.args and all(isinstance(x, ast.Constant) for x in a.args)):
+        return False
+    f = a.func
+    name = f.attr if isinstance(f, ast.Attribute) and isinstance(f.value, ast.Name) and f.value.id == "operator" else (
+        f.id if isinstance(f, ast.Name) else None)
+    return name in ("attrgetter", "itemgetter", "methodcaller")
 
 
 def _stmt_lists(fn: ast.AST) -> List[List[ast.stmt]]:
